@@ -274,6 +274,19 @@ register("C08",
          "their recorded events validated by a trace spec (code->spec)",
          "DESIGN.md §4 C08")
 
+register("C15",
+         "The structural clauses of C15 are decided by TLC on every logged `Volumes` event: N < 4 returns exactly the equal "
+         "share pi^2/N (4 pi/N for directions); for N >= 4 there are N positive values, bitwise the first N of the 2N "
+         "double-cover volumes, summing to pi^2 within 12 %; each value lies within 30 % of the measure of the set of "
+         "rotations nearest to that grid rotation, where the measure is an independent Monte-Carlo nearest-rotation count "
+         "(3e5 samples quick, 2e6 thorough) whose per-cell standard error is handed to the spec and widens the band by 4 "
+         "sigma. The life cycle of the getter (pure, history independent) is the GridLife.tla model. cube4D and randomQ, "
+         "every N in 1..24 (quick) / 1..60 + samples to 272 (thorough).",
+         "The true measures are a Monte-Carlo estimate (numeric trusted base); TLA+ contributes band arithmetic and the "
+         "structural clauses only - the weakest use of the specification among the 20 properties (DESIGN §7).",
+         "TLC trace validation of volume events against an independent Monte-Carlo oracle; TLA+ life-cycle model",
+         "DESIGN.md §4 C15, §7")
+
 ALL = [f"C{i:02d}" for i in range(1, 21)]
 
 
